@@ -159,6 +159,7 @@ def register(K):
     K.contract("fickle.Pickled.__iter__", params=P, returns="iterator[fickle.Opcode]", ensures=["iterates(result, self._opcodes)", "fresh_since_entry(result)"])
     K.contract("fickle.Pickled.__getitem__", params=f"{P}, index: val", returns="val", pure=True,
                raises={"IndexError": "index_out_of_range(index, len(self._opcodes))"}, ensures=["getitem_eq(result, self._opcodes, index)"])
+    K.contracts["fickle.Pickled.__getitem__"].returns_for_index = "fickle.Opcode"
     K.contract("fickle.Pickled.insert", params=f"{P}, index: int, opcode: fickle.Opcode", requires=["inv(self)"], modifies=MUT, allocates=False,
                ensures=["self._opcodes == list_insert(old(self._opcodes), index, opcode)", "caches_clear(self)", "inv(self)"])
     K.contract("fickle.Pickled.__setitem__", params=f"{P}, index: int, item: fickle.Opcode", requires=["inv(self)"], modifies=MUT, allocates=False,
